@@ -115,7 +115,20 @@ async def _evaluate(kind, text):
         return await evaluate_ahb_expression_tree(await parse_expression_including_unresolved_subexpressions(text))
     if kind == "resolve":
         return await parse_expression_including_unresolved_subexpressions(text)
+    if kind == "resolve_raw":
+        return await parse_expression_including_unresolved_subexpressions(
+            text, resolve_packages=False, replace_time_conditions=False
+        )
+    if kind == "resolve_pkg":
+        return await parse_expression_including_unresolved_subexpressions(text, resolve_packages=True)
+    if kind in ("keys", "keys_t"):
+        from ahbicht.expressions.condition_expression_parser import extract_categorized_keys
+
+        return await extract_categorized_keys(text, resolve_packages=False, replace_time_conditions=kind == "keys_t")
     raise ValueError(kind)
+
+
+RESOLVING = ("resolve", "resolve_raw", "resolve_pkg")
 
 
 async def _reference_op(sim, request):
@@ -172,7 +185,7 @@ async def do_op(sim, request):
             try:
                 tree = parse(text)
                 got = canon_tree(tree)
-                state["handles"].append((text, tree))
+                state["handles"].append({"text": text, "tree": tree, "as_returned": got, "edited": False})
             except SyntaxError:
                 got = {"exc": "SyntaxError"}
             expected = reference_parse(which, text)
@@ -190,9 +203,11 @@ async def do_op(sim, request):
             note_reuse(text)
             try:
                 result = await _evaluate(eval_kind, text)
-                if eval_kind == "resolve":
-                    state["handles"].append((text, result))  # resolved trees are edited by callers as well
                 outcome = {"ok": canon(result)}
+                if eval_kind in RESOLVING:  # resolved trees are edited by callers as well
+                    state["handles"].append(
+                        {"text": text, "tree": result, "as_returned": outcome["ok"], "edited": False}
+                    )
             except asyncio.CancelledError:
                 raise
             except (KeyboardInterrupt, SystemExit):
@@ -208,10 +223,21 @@ async def do_op(sim, request):
                 )
         elif kind == "M":
             if state["handles"]:
-                text, tree = state["handles"][op[1] % len(state["handles"])]
-                apply_edit(tree, op[2], op[3])
-                state["edited"].add(text)
+                handle = state["handles"][op[1] % len(state["handles"])]
+                apply_edit(handle["tree"], op[2], op[3])
+                handle["edited"] = True
+                state["edited"].add(handle["text"])
                 sim.count_fault("F7_caller_edit")
+                # what one caller does with its tree must not show in a tree another caller got back earlier
+                for other in state["handles"]:
+                    if not other["edited"] and canon_tree(other["tree"]) != other["as_returned"]:
+                        other["edited"] = True  # report once
+                        violation(
+                            "returned-tree-changed-by-foreign-edit",
+                            f"{cid} op {number}: after an edit of a tree returned for {handle['text']!r}, the tree "
+                            f"another caller had been given for {other['text']!r} changed to "
+                            f"{dumps(canon_tree(other['tree']))[:400]}",
+                        )
         elif kind == "F":
             for _ in range(op[1]):
                 state["flood_counter"] += 1
@@ -251,13 +277,26 @@ def generate(seed, tier="quick"):
                 {"grammar": "ahb", "text": render_ahb(parts, rnd, "plain"),
                  "evals": ["ahb_unresolved", "ahb_resolved", "resolve"]}
             )
+    for entry in pool:
+        entry["evals"] = entry["evals"] + ["resolve_raw", "keys", "keys_t"]
+    # packages: resolved with the clients' own (different) package tables through a yielding resolver
+    package_keys = []
+    if rnd.random() < 0.35:
+        package_keys = [f"{rnd.randint(1, 99)}P" for _ in range(rnd.randint(1, 2))]
+        for _ in range(rnd.randint(1, 3)):
+            pkey, other = rnd.choice(package_keys), f"[{rnd.choice(rc)}]"
+            text = rnd.choice([f"[{pkey}]", f"[{pkey}] U {other}", f"{other} O [{pkey}] U [{rnd.choice(package_keys)}]",
+                               f"Muss [{pkey}]", f"Muss {other} Soll [{pkey}] U {other}"])
+            pool.append({"grammar": "ahb" if text[0] in "MSK" else "cond", "text": text,
+                         "evals": ["resolve_pkg", "resolve_pkg", "resolve_raw", "keys"]})
     # time conditions (resolved only: their replacement trees are built by the resolver, not by the parsers)
     if rnd.random() < 0.4:
         for _ in range(rnd.randint(1, 2)):
             ub = f"[UB{rnd.choice([1, 2, 3])}]"
             other = f"[{rnd.choice(rc)}]"
             text = rnd.choice([ub, f"{ub} U {other}", f"{other} O ({ub} U {other})", f"Muss {ub}", f"Soll {other} U {ub} Kann {ub}"])
-            pool.append({"grammar": "ahb" if text[0] in "MSK" else "cond", "text": text, "evals": ["resolve"]})
+            pool.append({"grammar": "ahb" if text[0] in "MSK" else "cond", "text": text,
+                         "evals": ["resolve", "resolve_raw", "keys", "keys_t"]})
     # near-duplicates: strings that differ from another pool string only in whitespace or spelling must not share a tree
     for entry in list(pool):
         if rnd.random() < 0.25 and " " in entry["text"]:
@@ -296,14 +335,11 @@ def generate(seed, tier="quick"):
             target = rnd.randrange(len(pool))
             if roll < 0.34:
                 ops.append(["P" if pool[target]["grammar"] == "cond" else "A", target])
-            elif roll < 0.42:
-                ops.append(["R", "resolve", target])
+            elif roll < 0.44:
+                ops.append(["R", rnd.choice([e for e in pool[target]["evals"] if e in RESOLVING]), target])
             elif roll < 0.62:
-                choices = [e for e in pool[target]["evals"] if e != "resolve"]
-                if not choices:
-                    ops.append(["R", "resolve", target])
-                else:
-                    ops.append(["E", rnd.choice(choices[:2] if pool[target]["grammar"] == "ahb" else choices), target])
+                choices = [e for e in pool[target]["evals"] if e not in RESOLVING]
+                ops.append(["E", rnd.choice(choices), target])
             elif roll < 0.90:
                 path = [rnd.randrange(3) for _ in range(rnd.choice([0, 0, 1, 1, 2, 3]))]
                 ops.append(["M", rnd.randrange(64), path, rnd.choice(EDITS)])
@@ -314,7 +350,10 @@ def generate(seed, tier="quick"):
         if flood and index == 0:
             ops.insert(rnd.randrange(len(ops) + 1), ["F", rnd.choice([200, 1100])])
         cid = f"c{index}"
-        cer = make_cer(cid, rc={k: rnd.choice(STATES) for k in rc}, fc={k: rnd.random() < 0.5 for k in fcs}, hints=hints)
+        packages = {k: rnd.choice([f"[{rnd.choice(rc)}]", f"[{rnd.choice(rc)}] U [{rnd.choice(rc)}]",
+                                   f"[{rnd.choice(rc)}] O [UB1]"]) for k in package_keys}
+        cer = make_cer(cid, rc={k: rnd.choice(STATES) for k in rc}, fc={k: rnd.random() < 0.5 for k in fcs}, hints=hints,
+                       packages=packages)
         requests.append({"rid": cid, "start": rnd.choice([0, 0, 1, 3]), "ops": ops, "cer": cer})
     world = {
         "flavour": "sim",
